@@ -9,6 +9,7 @@ package c02
 import (
 	"verif/core"
 	"verif/gjs"
+	"verif/props/c08"
 	"verif/props/minigo"
 	"verif/reg"
 )
@@ -20,4 +21,7 @@ func Run(c *core.Ctx, pool *gjs.Pool) {
 	c.Assumef("suspension points are the trace points of the programs (call sites inside expressions, conditions, case expressions, post statements, arguments); no other goroutine is runnable in between")
 	minigo.Check(c, pool, minigo.Config{Prop: "C02", Families: true, Random: c.Pick(250, 5000),
 		Modes: []minigo.Mode{{Name: "resumable", Flat: true, Masks: c.Pick(8, 48)}}})
+	// suspensions inside deferred functions during a return, a panic or Goexit: the
+	// families of UnwindScen.tla with suspension points (a stuttering step of Unwind.tla)
+	c08.RunYield(c, pool)
 }
